@@ -1854,6 +1854,10 @@ fn strip_line_terminator(buf: &mut Vec<u8>) -> &[u8] {
     buf.as_slice()
 }
 
+#[cfg(kani)]
+#[path = "/verif/harness/ripd/continuity_stream_cache.rs"]
+mod verif_kani;
+
 #[cfg(test)]
 mod tests {
     use super::*;
